@@ -53,6 +53,12 @@ class OpHooks(Hooks):
         if isinstance(callee, FuncRef) and callee.fi is not None and callee.fi.qualname == f'{OPF}.forge_operation' \
                 and args and isinstance(args[0], Sym):
             return App('op', args[0])
+        if isinstance(callee, Builtin) and callee.name in ('sorted', 'reversed') and args and isinstance(args[0], list) and args[0] \
+                and all(isinstance(x, Sym) and x.name.startswith('c') and x.name[1:].isdigit() for x in args[0]):
+            # the contents of a group are forged in the order given; any re-ordering (by counter, kind, ...) is some other order: the reversed
+            # list stands for it (it differs from the identity on every list of two or more)
+            it.event('contents-reordered', callee.name)
+            return list(reversed(args[0]))
         return NotImplemented
 
     def compare(self, it, op, a, b, node):
@@ -138,6 +144,8 @@ def tokens(v: Any, reserved_keys) -> List[Any]:
             return [['reserved-entrypoint-tag', fname(v.args[1])]]
         if q == 'op':
             return [['content', fname(v.args[0])]]
+    if isinstance(v, App) and v.op.startswith('call:') and len(v.args) >= 1 and isinstance(v.args[0], Sym):
+        return [['via:' + v.op[5:].rsplit('.', 1)[-1], v.args[0].name]]  # an encoder the schema table does not know: compared (and reported) by name
     if isinstance(v, Sym):
         return [['raw', v.name]]  # a content field handed on without any encoder (never what the protocol schema says)
     raise AnalysisError(f'forger emits a term the schema normaliser does not model: {vrepr(v)}')
